@@ -65,12 +65,12 @@ Inductive case :=
 | CNewEx (available daemon_total ds_scheduled remaining : rl)               (* NewExistingNode remaining resources *)
 | CVolLimits (limits : list (string * Z)) (used new : vols) (exceeds : bool) (* VolumeUsage.ExceedsLimits != nil *)
 | CVolAlts (volumes : list (bool * list term)) (obs : list reqs)            (* VolumeTopology.GetRequirements *)
-| CNC (wk : list string) (cat : list itype) (all : bool) (n0 : nclaim) (steps : list (pod * bool * nobs))
-| CEX (all : bool) (n0 : enode) (steps : list (pod * eobs))
+| CNC (wk : list string) (cat : list itype) (all : bool) (n0 : nclaim) (steps : list (vpod * bool * nobs))
+| CEX (all : bool) (n0 : venode) (steps : list (vpod * eobs))
 | CFilter (wk : list string) (cat : list itype) (elig : list string) (r : reqs) (who : string) (ports : list hp)
           (groups : list dgroup) (total : rl) (relax : bool) (names : list string) (unsat : list (string * Z)) (e : option bool)
-| BNew (wk : list string) (r : reqs) (ts : list taint) (opts : list lopt) (pods daemons : list pod)
-| BEx (labels : list (string * string)) (ts : list taint) (alloc : rl) (vlimits : list (string * Z)) (bound placed daemons : list pod).
+| BNew (wk : list string) (r : reqs) (ts : list taint) (opts : list lopt) (pods : list vpod) (daemons : list pod)
+| BEx (labels : list (string * string)) (ts : list taint) (alloc : rl) (vlimits : list (string * Z)) (bound placed : list vpod) (daemons : list pod).
 
 Definition tag (ok : bool) (t : string) : list string := if ok then [] else [t].
 
@@ -85,11 +85,11 @@ Fixpoint relax_chain (tol_pns : bool) (fuel : nat) (p : pod) (obs : list pod) : 
       end
   end.
 
-Fixpoint nc_run (wk : list string) (cat : list itype) (all : bool) (n : nclaim) (steps : list (pod * bool * nobs)) : bool :=
+Fixpoint nc_run (wk : list string) (cat : list itype) (all : bool) (n : nclaim) (steps : list (vpod * bool * nobs)) : bool :=
   match steps with
   | [] => true
-  | (p, rx, o) :: rest =>
-      let '(n', out) := nc_step wk cat all rx n p in
+  | (vp, rx, o) :: rest =>
+      let '(n', out) := nc_step_v wk cat all rx n (fst vp) (snd vp) in
       (match out, o with
        | Ok (r, its), NOk r' its' rq' => reqs_eqb r r' && set_eqb its its' && rl_eqb (nc_requests n') rq'
        | Err e, NErr e' => err_eqb e e'
@@ -97,13 +97,13 @@ Fixpoint nc_run (wk : list string) (cat : list itype) (all : bool) (n : nclaim) 
        end) && nc_run wk cat all n' rest
   end.
 
-Fixpoint ex_run (all : bool) (n : enode) (steps : list (pod * eobs)) : bool :=
+Fixpoint ex_run (all : bool) (n : venode) (steps : list (vpod * eobs)) : bool :=
   match steps with
   | [] => true
-  | (p, o) :: rest =>
-      let '(n', out) := ex_step all n p in
+  | (vp, o) :: rest =>
+      let '(n', out) := ex_step_v all n (fst vp) (snd vp) in
       (match out, o with
-       | Ok r, EOk r' rem' => reqs_eqb r r' && rl_eqb (en_remaining n') rem'
+       | Ok r, EOk r' rem' => reqs_eqb r r' && rl_eqb (en_remaining (ve_node n')) rem'
        | Err e, EErr e' => err_eqb e e'
        | _, _ => false
        end) && ex_run all n' rest
@@ -133,9 +133,9 @@ Definition check_case (c : case) : list string :=
            | Some FNone, Some false => true
            | _, _ => false
            end) "corr:filterInstanceTypesByRequirements"
-  | BNew wk r ts opts pods daemons => tag (claim_admissible_b wk r ts opts pods daemons) "oracle:new-nodeclaim-placement-inadmissible"
+  | BNew wk r ts opts pods daemons => tag (claim_admissible_vb wk r ts opts pods daemons) "oracle:new-nodeclaim-placement-inadmissible"
   | BEx labels ts alloc vlimits bound placed daemons =>
-      tag (existing_admissible_b labels ts alloc vlimits bound placed daemons) "oracle:existing-node-placement-inadmissible"
+      tag (existing_admissible_vb labels ts alloc vlimits bound placed daemons) "oracle:existing-node-placement-inadmissible"
   end.
 
 Definition check_all (cs : list (Z * case)) : list (Z * string) :=
